@@ -70,6 +70,9 @@ extern const std::vector<const char*> FIELDS;
 Case generate();
 void run(const Case&);
 std::string finding_key(const Case&, const std::string& failkey);
+// optional: clamp arbitrary field values into the harness' input domain (used
+// by the libFuzzer adapter, whose cases are decoded from raw bytes)
+void normalize_case(Case& c) __attribute__((weak));
 // optional: exhaustive enumeration of a small finite sub-domain (mode --enum)
 void enumerate_cases(std::vector<Case>& out) __attribute__((weak));
 
@@ -253,9 +256,19 @@ static uint64_t case_hash(const Case& c) {
 static int g_timeout_ms = 20000;
 
 static char g_crash_line[4096];
+static char g_crash_key[256];
 static char g_crash_path[512];
 static char g_crash_json[3072];
+static bool g_replay_mode = false;
 static void crash_handler(int sig) {
+  if (g_replay_mode) {
+    char line[1024];
+    snprintf(line, sizeof line, "REPLAY harness=%s runs=1 fails=1 inconclusive=0 key=%s msg=crashed with signal %d in-process\n", HARNESS,
+             g_crash_key, sig);
+    ssize_t r = write(1, line, strlen(line));
+    (void)r;
+    _exit(1);
+  }
   // in-process mode: save the running case as replay and report it
   int fd = open(g_crash_path, O_WRONLY | O_CREAT | O_TRUNC, 0644);
   if (fd >= 0) {
@@ -279,6 +292,7 @@ static Outcome run_inproc(const Case& c) {
   g_labels.clear();
   g_nontrivial = false;
   std::string fkey = finding_key(c, "crash");
+  snprintf(g_crash_key, sizeof g_crash_key, "%s", fkey.c_str());
   snprintf(g_crash_path, sizeof g_crash_path, "%s/%s-%s-crash-%llu.json", g_rdir.c_str(), HARNESS,
            g_tag.c_str(), (unsigned long long)(case_hash(c) % 100000000));
   snprintf(g_crash_json, sizeof g_crash_json,
@@ -546,6 +560,7 @@ inline int e1_main(int argc, char** argv, bool inproc = false) {
       g_timeout_ms = atoi(argv[++i]);
   }
   if (mode == "replay") {
+    g_replay_mode = true; // an in-process crash is reported as a failed replay
     Case c;
     if (!parse_case_file(replay.c_str(), c)) {
       fprintf(stderr, "cannot read %s\n", replay.c_str());
@@ -640,11 +655,71 @@ inline int e1_main(int argc, char** argv, bool inproc = false) {
 
 } // namespace verif
 
+#ifdef VERIF_LIBFUZZER
+// ---- libFuzzer adapter: the same harness as a coverage-guided fuzz target.
+// Bytes -> Case: the first FIELDS.size() bytes (2 bytes each, little endian)
+// are the named fields, the rest is the variable tail (one value per byte);
+// normalize_case() clamps them into the domain.  A failing case is written as
+// the same JSON replay file the rapidcheck driver writes, then the process
+// traps so that libFuzzer also keeps its crash artifact.
+namespace verif {
+static Agg g_fuzz_agg;
+static void fuzz_dump_stats() {
+  const char* p = getenv("VERIF_STATS");
+  if (p) {
+    std::ofstream f(p);
+    f << g_fuzz_agg.json() << "\n";
+  }
+}
+inline int fuzz_one(const uint8_t* data, size_t size) {
+  Case c;
+  size_t nf = FIELDS.size();
+  c.f.assign(nf, 0);
+  size_t o = 0;
+  for (size_t i = 0; i < nf && o + 1 < size; ++i, o += 2)
+    c.f[i] = (int64_t)data[o] | ((int64_t)data[o + 1] << 8);
+  for (; o < size; ++o)
+    c.f.push_back(data[o]);
+  if (normalize_case)
+    normalize_case(c);
+  if (const char* dump = getenv("VERIF_DUMP_CASE")) { // artifact -> replay file
+    Outcome o;
+    o.key = "crash";
+    o.msg = "decoded from a libFuzzer artifact";
+    write_replay(dump, c, o, finding_key(c, "crash"));
+  }
+  g_inproc  = true;
+  Outcome r = run_inproc(c);
+  g_fuzz_agg.add(c, r);
+  if (r.status == "FAIL") {
+    std::string fkey = finding_key(c, r.key);
+    const char* rd   = getenv("VERIF_REPLAY_DIR");
+    std::string path = std::string(rd ? rd : ".") + "/" + HARNESS + "-fz-" + std::to_string(case_hash(c) % 100000000) + ".json";
+    write_replay(path, c, r, fkey);
+    printf("FALSIFIED harness=%s key=%s replay=%s msg=%s\n", HARNESS, fkey.c_str(), path.c_str(), r.msg.c_str());
+    fflush(stdout);
+    fuzz_dump_stats();
+    __builtin_trap();
+  }
+  return 0;
+}
+} // namespace verif
+#define VERIF_INPROC_MAIN(init)                                                \
+  extern "C" int LLVMFuzzerInitialize(int*, char***) {                         \
+    static init;                                                               \
+    atexit(verif::fuzz_dump_stats);                                            \
+    return 0;                                                                  \
+  }                                                                            \
+  extern "C" int LLVMFuzzerTestOneInput(const uint8_t* d, size_t n) {          \
+    return verif::fuzz_one(d, n);                                              \
+  }
+#else
 // in-process variant: `init` is a statement list run once before the search
 #define VERIF_INPROC_MAIN(init)                                                \
   int main(int argc, char** argv) {                                            \
     init;                                                                      \
     return verif::e1_main(argc, argv, true);                                   \
   }
+#endif
 #define VERIF_E1_MAIN                                                          \
   int main(int argc, char** argv) { return verif::e1_main(argc, argv); }
